@@ -28,8 +28,6 @@ type ResourceBinding struct {
 	Register          any // func(restli.Server, Resource)
 	Mock              reflect.Type
 	ClientIface       reflect.Type
-	ReadOnly          restlicodec.PathSpec
-	CreateAndReadOnly restlicodec.PathSpec
 }
 
 func RegisterType(full string, t reflect.Type)                   { types[full] = t }
